@@ -46,6 +46,57 @@ pub fn adjust(cfg: &mut SwarmCfg, tier: &str, r: &mut Prng) {
             setw(cfg, "crash", 0);
             cfg.storage = *r.pick(&[StorageKind::Mem, StorageKind::Mem, StorageKind::Sql]);
             cfg.n_parties = cfg.n_parties.min(6);
+            if r.chance(1, 3) {
+                // provider errors surfaced from identity validation: one sampled call index per operation
+                cfg.scenario = "identity-faults".into();
+                cfg.oracles.push("identity-faults".into());
+                cfg.faults.push("A-ID-ERR".into());
+                cfg.knobs.push(("sample-faults".into(), 6));
+            }
+            if r.chance(1, 2) {
+                cfg.knobs.push(("psk".into(), 1));
+            }
+        }
+        "C06" => {
+            cfg.oracles = sv(&["agreement", "restore"]);
+            cfg.faults = sv(&["P-CRASH", "N-REORD", "N-DUP", "N-RACE", "N-STALE", "crash-with-pending"]);
+            cfg.storage = *r.pick(&[StorageKind::Mem, StorageKind::Sql, StorageKind::Mirror, StorageKind::Mirror]);
+            cfg.n_parties = cfg.n_parties.min(7);
+            cfg.knobs.push(("twins".into(), r.range(1, 3)));
+            setw(cfg, "write", 16);
+            setw(cfg, "crash", 3);
+            setw(cfg, "reload", 12);
+            setw(cfg, "propose", 10);
+            setw(cfg, "send_app", 12);
+            setw(cfg, "commit", 12);
+            setw(cfg, "clear_pending", 2);
+        }
+        "C11" => {
+            cfg.oracles = sv(&["agreement", "pending-model", "state-unchanged"]);
+            cfg.faults = sv(&["N-RACE", "N-STALE", "N-REORD", "N-DUP", "crash-with-pending"]);
+            cfg.n_parties = cfg.n_parties.clamp(3, 7);
+            setw(cfg, "commit", 24);
+            setw(cfg, "ds_pick", 6);
+            setw(cfg, "clear_pending", 5);
+            setw(cfg, "stale_commit", 8);
+            setw(cfg, "apply_detached", 10);
+            setw(cfg, "write", 8);
+            setw(cfg, "crash", 1);
+            setw(cfg, "reload", 10);
+            cfg.knobs.push(("detached".into(), 3));
+        }
+        "C15" => {
+            cfg.oracles = sv(&["agreement", "storage-faults", "state-unchanged"]);
+            cfg.faults = sv(&["S-ERR", "N-REORD", "N-RACE", "N-STALE"]);
+            cfg.storage = *r.pick(&[StorageKind::Mem, StorageKind::Sql, StorageKind::Mirror]);
+            cfg.n_parties = cfg.n_parties.min(5);
+            cfg.steps = cfg.steps.min(40);
+            cfg.knobs.push(("psk".into(), 1));
+            setw(cfg, "write", 14);
+            setw(cfg, "send_app", 12);
+            setw(cfg, "crash", 2);
+            setw(cfg, "reload", 10);
+            setw(cfg, "stale_commit", 1);
         }
         _ => {}
     }
@@ -58,6 +109,14 @@ pub fn extra_kinds(w: &World, kinds: &mut Vec<(&'static str, u32)>) {
     }
     if w.cfg.weight("byz") > 0 && w.live_members(g).len() >= 2 {
         kinds.push(("byz", w.cfg.weight("byz")));
+    }
+    if w.cfg.weight("apply_detached") > 0
+        && w
+            .live_members(g)
+            .iter()
+            .any(|p| !w.parties[*p].mems[g].detached.is_empty())
+    {
+        kinds.push(("apply_detached", w.cfg.weight("apply_detached")));
     }
 }
 
@@ -150,6 +209,20 @@ pub fn extra_action(w: &mut World, kind: &str) -> Option<Action> {
                 m,
             })
         }
+        "apply_detached" => {
+            let holders: Vec<usize> = w
+                .live_members(g)
+                .into_iter()
+                .filter(|p| !w.parties[*p].mems[g].detached.is_empty())
+                .collect();
+            let p = *w.prng.pick(&holders);
+            Some(Action::Special {
+                kind: "apply_detached".into(),
+                a: p as u64,
+                b: w.prng.below(8),
+                c: 0,
+            })
+        }
         "byz" => {
             let live = w.live_members(g);
             let p = *w.prng.pick(&live);
@@ -167,7 +240,22 @@ pub fn extra_action(w: &mut World, kind: &str) -> Option<Action> {
     }
 }
 
-pub fn adjust_commit(_w: &mut World, _p: usize, _g: usize, _spec: &mut CommitSpec) {}
+pub fn adjust_commit(w: &mut World, _p: usize, _g: usize, spec: &mut CommitSpec) {
+    if let Some(d) = w.cfg.knob("detached") {
+        if w.prng.chance(1, d) {
+            spec.detached = true;
+        }
+    }
+    if w.cfg.knob("psk") == Some(1) && w.prng.chance(1, 4) {
+        let n = w.prng.range(1, 2);
+        for _ in 0..n {
+            let id = w.prng.below(3) as u8;
+            if !spec.ext_psks.contains(&id) {
+                spec.ext_psks.push(id);
+            }
+        }
+    }
+}
 
 pub fn prop_spec_override(
     _w: &mut World,
@@ -180,6 +268,15 @@ pub fn prop_spec_override(
 
 /// run-level set-up after the world is created (who creates the group, PSK distribution, ...)
 pub fn setup(w: &mut World) -> VResult<()> {
+    if w.cfg.knob("psk") == Some(1) {
+        // every party holds the same value for external PSK ids k0..k2
+        for id in 0..3u8 {
+            let value = crate::prng::Prng::new(crate::prng::mix(&[w.seed, 0x95c, id as u64])).bytes(32);
+            for p in 0..w.parties.len() {
+                w.parties[p].pskstore.put(&[b'k', id], &value);
+            }
+        }
+    }
     w.create_group(0)?;
     Ok(())
 }
